@@ -219,7 +219,7 @@ def build_margin_world(repo, it: Interp, pos_sign, pre_rows=True):
     ex = W.obj_of(repo, FUT, "FuturesExchange", "exchange", {
         "name": "Sandbox", "type": "futures", "fee_rate": A("f"), "settlement_currency": "USDT",
         "assets": {"BTC": num(0), "USDT": A("Wt")}, "available_assets": {"BTC": A("a0"), "USDT": A("Wt")},
-        "buy_orders": {"BTC": table(rows_buy)}, "sell_orders": {"BTC": table(rows_sell)},
+        "buy_orders": {"BTC": table(rows_buy)}, "sell_orders": {"BTC": table(rows_sell)}, "symbols": {"BTC": SYM},
         "futures_leverage": A("lev"), "futures_leverage_mode": "cross"})
     strat = Obj("Strategy", name="strategy", attrs={"leverage": A("lev")}, open_world=True)
     pos = W.obj_of(repo, POSITION, "Position", "position", {
@@ -371,7 +371,7 @@ def check_margin_twins(repo, rep):
                 ex = W.obj_of(repo, FUT, "FuturesExchange", "exchange", {
                     "name": "Sandbox", "type": "futures", "fee_rate": A("f"), "settlement_currency": "USDT",
                     "assets": {"BTC": num(0), "USDT": A("Wt")}, "available_assets": {"BTC": A("a0"), "USDT": A("Wt")},
-                    "buy_orders": {"BTC": table(twins if side == "buy" else [])}, "sell_orders": {"BTC": table(twins if side == "sell" else [])},
+                    "buy_orders": {"BTC": table(twins if side == "buy" else [])}, "sell_orders": {"BTC": table(twins if side == "sell" else [])}, "symbols": {"BTC": SYM},
                     "futures_leverage": A("lev"), "futures_leverage_mode": "cross"})
                 o = W.make_order(repo, "O", sides[side], limit, qty, A("p"), reduce_only=False, symbol=SYM)
                 it.ex = ex
@@ -394,7 +394,9 @@ def check_margin_multi(repo, rep):
     smp = {"q1": F(1), "p1": F(8), "q2": F(4), "p2": F(15), "q3": F(2), "p3": F(30), "q4": F(1), "p4": F(31), "Wt": F(1000), "P": F(2), "E": F(9),
            "cp": F(11), "P2": F(3), "E2": F(28), "cp2": F(27), "lev": F(2), "f": F(1, 100)}
     nonneg = set(smp)
-    for order in (("BTC", "ETH"), ("ETH", "BTC")):
+    for order, quote, settle in ((("BTC", "ETH"), "USDT", "USDT"), (("ETH", "BTC"), "USDT", "USDT"),
+                                 # an exchange whose settlement currency is not the quote part of its symbols (BTC-PERP settled in USDC)
+                                 (("BTC", "ETH"), "PERP", "USDC")):
         def mk(dec):
             it = Interp(repo, stubs=W.base_stubs(), samples=[dict(smp)], nonneg=set(nonneg), decisions=dec)
 
@@ -406,18 +408,19 @@ def check_margin_multi(repo, rep):
             assets = {}
             for a in order:
                 assets[a] = num(0)
-            assets["USDT"] = A("Wt")
+            assets[settle] = A("Wt")
             ex = W.obj_of(repo, FUT, "FuturesExchange", "exchange", {
-                "name": "Sandbox", "type": "futures", "fee_rate": A("f"), "settlement_currency": "USDT", "assets": assets,
+                "name": "Sandbox", "type": "futures", "fee_rate": A("f"), "settlement_currency": settle, "assets": assets,
+                "symbols": {"BTC": f"BTC-{quote}", "ETH": f"ETH-{quote}"},
                 "buy_orders": {"BTC": table([(A("q1"), A("p1"))]), "ETH": table([(A("q3"), A("p3"))])},
                 "sell_orders": {"BTC": table([(-A("q2"), A("p2"))]), "ETH": table([(-A("q4"), A("p4"))])},
                 "futures_leverage": A("lev"), "futures_leverage_mode": "cross"})
             strat = Obj("Strategy", name="strategy", attrs={"leverage": A("lev")}, open_world=True)
             pos = {
-                "BTC-USDT": W.obj_of(repo, POSITION, "Position", "pos_btc", {"qty": A("P"), "previous_qty": num(0), "entry_price": A("E"), "current_price": A("cp"),
-                                                                            "exchange": ex, "exchange_name": "Sandbox", "symbol": "BTC-USDT", "strategy": strat}),
-                "ETH-USDT": W.obj_of(repo, POSITION, "Position", "pos_eth", {"qty": -A("P2"), "previous_qty": num(0), "entry_price": A("E2"), "current_price": A("cp2"),
-                                                                            "exchange": ex, "exchange_name": "Sandbox", "symbol": "ETH-USDT", "strategy": strat}),
+                f"BTC-{quote}": W.obj_of(repo, POSITION, "Position", "pos_btc", {"qty": A("P"), "previous_qty": num(0), "entry_price": A("E"), "current_price": A("cp"),
+                                                                                "exchange": ex, "exchange_name": "Sandbox", "symbol": f"BTC-{quote}", "strategy": strat}),
+                f"ETH-{quote}": W.obj_of(repo, POSITION, "Position", "pos_eth", {"qty": -A("P2"), "previous_qty": num(0), "entry_price": A("E2"), "current_price": A("cp2"),
+                                                                                "exchange": ex, "exchange_name": "Sandbox", "symbol": f"ETH-{quote}", "strategy": strat}),
             }
             it.stubs[f"{W.SELECTORS}:get_position"] = lambda i, a, k: pos.get(a[1])
             return it, lambda it: it.getattr(ex, "available_margin")
@@ -426,9 +429,10 @@ def check_margin_multi(repo, rep):
             want = A("Wt") - (A("E") * A("P") / lev - A("P") * (A("cp") - A("E"))) - (A("E2") * A("P2") / lev - (-A("P2")) * (A("cp2") - A("E2"))) \
                 - (A("q2") * A("p2")) / lev - (A("q3") * A("p3")) / lev
             if out.kind != "return" or not (isinstance(out.value, R) and out.value.same(want)):
-                rep.violation("C03-R5m", "available_margin|two-assets", f"available_margin with two traded assets (iteration order {order}) = {out.value!r}, reference {want!r}")
-            rep.instance("C03-R5m", f"two-assets|{order}", {"value": repr(out.value)})
-    rep.floor("C03-R5m", 2)
+                rep.violation("C03-R5m", "available_margin|two-assets" + ("" if quote == settle else "|settlement-not-quote"),
+                              f"available_margin with two traded assets (iteration order {order}, symbols *-{quote}, settled in {settle}) = {out.value!r}, reference {want!r}")
+            rep.instance("C03-R5m", f"two-assets|{order}|{quote}|{settle}", {"value": repr(out.value)})
+    rep.floor("C03-R5m", 3)
 
 
 def check_fee(repo, rep):
